@@ -20,32 +20,45 @@ EXTENDS Integers, Sequences, FiniteSets, TLC
 \* kind: "finite" (terminates for every d), "unbounded" (never terminates, frames grow),
 \*       "cyclic" (a value that depends on itself)
 Families == {
-  [id |-> "call",        kind |-> "finite"],    \* non-tail function recursion
-  [id |-> "tailstrict",  kind |-> "finite"],    \* tail recursion with tailstrict
-  [id |-> "mutual",      kind |-> "finite"],    \* mutual recursion
-  [id |-> "objfield",    kind |-> "finite"],    \* recursive object method
-  [id |-> "selfchain",   kind |-> "finite"],    \* field i reads field i-1
-  [id |-> "localchain",  kind |-> "finite"],    \* local i reads local i-1
-  [id |-> "nestarr_eq",  kind |-> "finite"],    \* nested arrays compared with ==
-  [id |-> "nestarr_lt",  kind |-> "finite"],    \* nested arrays compared with <
-  [id |-> "nestarr_str", kind |-> "finite"],    \* nested arrays converted to string
-  [id |-> "nestarr_man", kind |-> "finite"],    \* nested arrays manifested
-  [id |-> "nestobj_man", kind |-> "finite"],    \* nested objects manifested
-  [id |-> "nestobj_eq",  kind |-> "finite"],
-  [id |-> "prune",       kind |-> "finite"],    \* std.prune of a nested structure
-  [id |-> "superchain",  kind |-> "finite"],    \* d extensions each reading super
-  [id |-> "arrcomp",     kind |-> "finite"],    \* nested comprehension / thunk chain through arrays
-  [id |-> "inf_call",    kind |-> "unbounded"], \* f(n) = f(n + 1)
-  [id |-> "inf_plus",    kind |-> "unbounded"], \* f(n) = 1 + f(n)
-  [id |-> "inf_obj",     kind |-> "unbounded"], \* { f(n): self.f(n + 1) }
-  [id |-> "cyc_local",   kind |-> "cyclic"],    \* local x = x
-  [id |-> "cyc_field",   kind |-> "cyclic"],    \* { x: self.x }
-  [id |-> "cyc_two",     kind |-> "cyclic"],    \* { a: self.b, b: self.a }
-  [id |-> "cyc_super",   kind |-> "cyclic"],    \* { a: 1 } + { a: super.a + self.a }
-  [id |-> "cyc_arr",     kind |-> "cyclic"]     \* local a = [a[0]]
+  [id |-> "call",         kind |-> "finite", linear |-> TRUE],    \* non-tail function recursion
+  [id |-> "tailstrict",   kind |-> "finite", linear |-> FALSE],    \* tail recursion with tailstrict
+  [id |-> "mutual",       kind |-> "finite", linear |-> TRUE],    \* mutual recursion
+  [id |-> "objfield",     kind |-> "finite", linear |-> TRUE],    \* recursive object method
+  [id |-> "selfchain",    kind |-> "finite", linear |-> TRUE],    \* field i reads field i-1
+  [id |-> "localchain",   kind |-> "finite", linear |-> TRUE],    \* local i reads local i-1
+  [id |-> "nestarr_eq",   kind |-> "finite", linear |-> TRUE],    \* nested arrays compared with ==
+  [id |-> "nestarr_lt",   kind |-> "finite", linear |-> TRUE],    \* nested arrays compared with <
+  [id |-> "nestarr_str",  kind |-> "finite", linear |-> TRUE],    \* nested arrays converted to string
+  [id |-> "nestarr_man",  kind |-> "finite", linear |-> TRUE],    \* nested arrays manifested
+  [id |-> "nestobj_man",  kind |-> "finite", linear |-> TRUE],    \* nested objects manifested
+  [id |-> "nestobj_eq",   kind |-> "finite", linear |-> TRUE],
+  [id |-> "prune",        kind |-> "finite", linear |-> TRUE],    \* std.prune of a nested structure
+  [id |-> "superchain",   kind |-> "finite", linear |-> TRUE],    \* d extensions each reading super
+  [id |-> "arrcomp",      kind |-> "finite", linear |-> TRUE],    \* nested comprehension / thunk chain through arrays
+  [id |-> "inf_call",     kind |-> "unbounded", linear |-> FALSE], \* f(n) = f(n + 1)
+  [id |-> "inf_plus",     kind |-> "unbounded", linear |-> FALSE], \* f(n) = 1 + f(n)
+  [id |-> "inf_obj",      kind |-> "unbounded", linear |-> FALSE], \* { f(n): self.f(n + 1) }
+  [id |-> "cyc_local",    kind |-> "cyclic", linear |-> FALSE],    \* local x = x
+  [id |-> "cyc_field",    kind |-> "cyclic", linear |-> FALSE],    \* { x: self.x }
+  [id |-> "cyc_two",      kind |-> "cyclic", linear |-> FALSE],    \* { a: self.b, b: self.a }
+  [id |-> "cyc_super",    kind |-> "cyclic", linear |-> FALSE],    \* { a: 1 } + { a: super.a + self.a }
+  [id |-> "cyc_arr",      kind |-> "cyclic", linear |-> FALSE],    \* local a = [a[0]]
+  [id |-> "pluschain",   kind |-> "finite", linear |-> TRUE],     \* d extensions {x+: 1}
+  [id |-> "plusfold",    kind |-> "finite", linear |-> TRUE],     \* the same built by std.foldl
+  [id |-> "nest1_eq",    kind |-> "finite", linear |-> TRUE],     \* nested ONE-element arrays compared with ==
+  [id |-> "nestobj_str", kind |-> "finite", linear |-> TRUE],     \* nested objects converted to string
+  [id |-> "cyc_eq",      kind |-> "unbounded", linear |-> FALSE], \* local a = [a]; a == a
+  [id |-> "cyc_lt",      kind |-> "unbounded", linear |-> FALSE], \* local a = [a]; a < a
+  [id |-> "cyc_str",     kind |-> "unbounded", linear |-> FALSE], \* local a = [a]; std.toString(a)
+  [id |-> "cyc_man",     kind |-> "unbounded", linear |-> FALSE], \* local a = {x: a}; a   (manifestation)
+  [id |-> "cyc_objeq",   kind |-> "unbounded", linear |-> FALSE]  \* local a = {x: a}; a == a
 }
 
 KindOf(f) == (CHOOSE x \in Families : x.id = f).kind
+\* "linear" families recurse to logical depth d: every level must occupy at least one frame
+\* (otherwise the limit would not bound the depth), so a value needs a limit s >= d.  Tail calls
+\* marked tailstrict are the one shape that may run in constant frames.
+LinearOf(f) == (CHOOSE x \in Families : x.id = f).linear
 
 \* What one cell may be, given the family's kind
 CellOk(kind, out) ==
@@ -56,6 +69,7 @@ CellOk(kind, out) ==
 (* Row scan, s increasing for fixed (family, d): once a value, always the same value.  *)
 (* Column scan, d increasing for fixed (family, s): once a failure, always a failure.  *)
 NoCell == [out |-> "none", val |-> "", d |-> -1, s |-> -1]
+DepthBound(f, cell) == (LinearOf(f) /\ cell.out = "value") => cell.s >= cell.d
 RowStep(prev, cell) ==     \* prev = NoCell or the previous cell of the row
   prev.out = "none" \/ (prev.out = "value" => (cell.out = "value" /\ cell.val = prev.val))
 ColStep(prev, cell) ==
